@@ -23,7 +23,7 @@ def working(machine, x, y, l):
 
 @contract("rig/place_and_route/route/utils.py::links_between")
 class LinksBetween:
-    properties = ("C03",)
+    properties = ("C03", "C11")      # (C11: links, vectors and the torus size are mutually consistent)
     params = dict(a=T2, b=T2, machine=MACHINE)
     options = {"int_class": "rig/links.py::Links"}
 
